@@ -113,8 +113,14 @@ Definition sp_delta1 (c : xcode) : Z :=
   | _ => 0
   end.
 Definition sp_delta (cs : list xcode) : Z := fold_right (fun c acc => sp_delta1 c + acc) 0 cs.
+Lemma sp_delta_cons c l : sp_delta (c :: l) = sp_delta1 c + sp_delta l.
+Proof. reflexivity. Qed.
 Lemma sp_delta_app a b : sp_delta (a ++ b) = sp_delta a + sp_delta b.
-Proof. induction a as [|c a IH]; cbn [app sp_delta fold_right]; [lia|]. fold (sp_delta (a ++ b)) (sp_delta a). lia. Qed.
+Proof.
+  induction a as [|c a IH]; [reflexivity|].
+  change (sp_delta ((c :: a) ++ b)) with (sp_delta1 c + sp_delta (a ++ b)).
+  change (sp_delta (c :: a)) with (sp_delta1 c + sp_delta a). rewrite IH. lia.
+Qed.
 
 Lemma sp_delta_movs {X} (f : X -> xcode) (l : list X) :
   (forall x, sp_delta1 (f x) = 0) -> sp_delta (map f l) = 0.
@@ -151,8 +157,17 @@ Theorem save_restore_balanced fb regs :
   sp_delta (save_caller_save_registers fb regs) + sp_delta (restore_caller_save_registers fb regs) = 0.
 Proof.
   unfold save_caller_save_registers, restore_caller_save_registers. rewrite !sp_delta_app.
-  rewrite !sp_delta_movs by (intros [a b]; reflexivity). rewrite sp_delta_push, sp_delta_pop, rev_length.
-  destruct (Nat.even _); cbn [sp_delta fold_right sp_delta1]; change (N.eqb STACK STACK) with true; cbn; lia.
+  rewrite (sp_delta_movs (fun or_ : N * N => MOV (fb + fst or_)%N (snd or_))) by (intros [a b]; reflexivity).
+  rewrite (sp_delta_movs (fun or_ : N * N => MOV (snd or_) (fb + fst or_)%N)) by (intros [a b]; reflexivity).
+  rewrite sp_delta_push, sp_delta_pop, rev_length.
+  set (k := (List.length regs - backup_used fb regs)%nat).
+  replace (sp_delta (if Nat.even k then [SUBI STACK (address 1)] else [])) with (if Nat.even k then -8 else 0)
+    by (destruct (Nat.even k); reflexivity).
+  replace (sp_delta (if Nat.even k then [ADDI STACK (address 1)] else [])) with (if Nat.even k then 8 else 0)
+    by (destruct (Nat.even k); reflexivity).
+  match goal with |- context [-8 * Z.of_nat ?a + _] =>
+    match goal with |- context [8 * Z.of_nat ?b] => change b with a end end.
+  generalize (Nat.even k); intros []; lia.
 Qed.
 (* the registers popped after the call are the pushed ones, in reverse order; the register-to-register
    backups are undone pairwise *)
@@ -171,8 +186,8 @@ Qed.
 (* prologue / epilogue *)
 Theorem body_alignment n cs : setup n = Ok cs -> sp_delta cs mod 16 = 0.
 Proof.
-  unfold setup. destruct (move_arguments n) as [ma|] eqn:M; cbn [rbind]; [|discriminate].
-  intros E; injection E as <-. rewrite sp_delta_app.
+  unfold setup, rbind. destruct (move_arguments n) as [ma|] eqn:M; [|discriminate].
+  intros E; injection E as <-. rewrite !sp_delta_cons.
   assert (sp_delta ma = 0) as ->.
   { clear - M. revert ma M. induction n as [|m IH]; cbn [move_arguments]; intros ma M.
     - injection M as <-. reflexivity.
@@ -183,8 +198,8 @@ Qed.
 Theorem prologue_epilogue_balanced n cs :
   setup n = Ok cs -> sp_delta cs + sp_delta (removelast cleanup) = 0.
 Proof.
-  unfold setup. destruct (move_arguments n) as [ma|] eqn:M; cbn [rbind]; [|discriminate].
-  intros E; injection E as <-. rewrite sp_delta_app.
+  unfold setup, rbind. destruct (move_arguments n) as [ma|] eqn:M; [|discriminate].
+  intros E; injection E as <-. rewrite !sp_delta_cons.
   assert (sp_delta ma = 0) as ->.
   { clear - M. revert ma M. induction n as [|m IH]; cbn [move_arguments]; intros ma M.
     - injection M as <-. reflexivity.
